@@ -130,11 +130,16 @@ def judge(case):
     end_wall = naive + span
     use_end = bool(case.get("end")) and end_wall.year < 2100
     if use_end:
-        # a period needs start <= end as instants *in the reading of the library the zone objects come from*; that is the only
-        # restriction (ends inside gaps and folds are wall-clock times like any other)
+        # a period needs start <= end as instants, in the reading of the library the zone objects come from (it is built with
+        # them) *and* in the reading of the active provider (it is parsed with it: the two libraries place wall times inside a
+        # gap differently, and the thorough tier met periods that one of them reads as ending before they start).  That is the
+        # only restriction: ends inside gaps and folds are wall-clock times like any other.
         try:
-            e_obj = mk_dt(src, zone, [end_wall.year, end_wall.month, end_wall.day, end_wall.hour, end_wall.minute, end_wall.second])
-            use_end = dt.astimezone(UTC) <= e_obj.astimezone(UTC)
+            ew = [end_wall.year, end_wall.month, end_wall.day, end_wall.hour, end_wall.minute, end_wall.second]
+            for lib in {src, provider}:
+                s_obj = dt if lib == src else mk_dt(lib, zone, wall, 0)
+                if not s_obj.astimezone(UTC) <= mk_dt(lib, zone, ew).astimezone(UTC):
+                    use_end = False
         except Exception:  # noqa: BLE001
             use_end = False
     try:
